@@ -8,6 +8,7 @@ pub mod gen;
 pub mod gens;
 pub mod model;
 pub mod props;
+pub mod selftest;
 pub mod shim;
 pub mod tlsfix;
 pub mod tlspeer;
